@@ -3,6 +3,7 @@ package main
 import (
 	"fmt"
 	"go/types"
+	"sort"
 	"strings"
 )
 
@@ -213,4 +214,63 @@ func startServersTable(h H) (res startTableResult) {
 		}
 	}
 	return
+}
+
+// hookBackupTable: "leaves the registered event hooks as they were" — cloneEventHooks / restoreEventHooks evaluated
+// on the registry (a sync.Map, modelled as a map): whatever was registered before the reload, and whatever the
+// rejected configuration added, after the restore the registry holds exactly what it held before.
+func hookBackupTable(h H) {
+	r := h.r
+	clone := h.fn("R5", "", "cloneEventHooks")
+	restore := h.fn("R5", "", "restoreEventHooks")
+	if clone == nil || restore == nil {
+		return
+	}
+	bad := ""
+	n := 0
+	for _, pre := range [][]string{nil, {"on-startup-1"}, {"on-startup-1", "on-shutdown-2"}} {
+		for _, added := range [][]string{nil, {"on-startup-new"}} {
+			n++
+			reg := &aobj{name: "eventHooks registry", typ: types.Typ[types.Int], f: map[string]aval{}}
+			m := amap{&amapData{vals: map[string]aval{}, keys: map[string]aval{}}}
+			reg.f["·syncmap"] = m
+			put := func(k string) {
+				m.m.vals["s:"+k] = acb{"hook " + k}
+				m.m.keys["s:"+k] = aiface{astr(k), types.Typ[types.String]}
+			}
+			for _, k := range pre {
+				put(k)
+			}
+			env := &absEnv{noFork: true, maxSteps: 100000, globals: map[string]*aobj{"eventHooks": {name: "eventHooks", typ: types.Typ[types.Int], f: map[string]aval{"": aptr{reg, ""}}}}}
+			backup, und := env.run(clone, nil)
+			desc := fmt.Sprintf("registry %q, the rejected configuration registers %q", pre, added)
+			if und != "" {
+				bad = desc + ": cloneEventHooks undecided — " + und
+				break
+			}
+			for _, k := range added {
+				put(k)
+			}
+			if _, und := env.run(restore, []aval{backup}); und != "" {
+				bad = desc + ": restoreEventHooks undecided — " + und
+				break
+			}
+			cur, _ := reg.f["·syncmap"].(amap)
+			var got []string
+			for k := range cur.m.vals {
+				got = append(got, strings.TrimPrefix(k, "s:"))
+			}
+			sort.Strings(got)
+			want := append([]string{}, pre...)
+			sort.Strings(want)
+			if strings.Join(got, ",") != strings.Join(want, ",") {
+				bad = fmt.Sprintf("%s: after the restore the registry holds %q", desc, got)
+				break
+			}
+		}
+		if bad != "" {
+			break
+		}
+	}
+	r.Check(bad == "", "R5", "casket.cloneEventHooks+restoreEventHooks/registry-as-it-was", restore.Pos(), "a failed reload leaves the registered event hooks exactly as they were", fmt.Sprintf("%d cases evaluated", n), bad)
 }
